@@ -59,7 +59,7 @@ VARIANTS = [
     V("twin: if fill_value is not None", ("C05",), "", "core.py", '            if fill_value is None:\n                raise ValueError("Filling is required but fill_value is None.")', '            if not (fill_value is not None):\n                raise ValueError("Filling is required but fill_value is None.")', expect="silent"),
     # ---------------- R-PURE / R-ARGS / R-GLOBAL / R-MEMO (C13, C14)
     V("idx = flat (no copy)", ("C13", "C03"), "R-PURE", "core.py", '        idx = flat.astype(np.intp)', '        idx = flat', must_mention="_factorize_single"),
-    V("scan combine adds into its right operand (out=)", ("C03", "C13", "C10"), "R-PURE", "aggregations.py", '            array=agg.binary_op(reindexed[..., right.group_idx], right.array),', '            array=agg.binary_op(reindexed[..., right.group_idx], right.array, out=right.array),', must_mention="scan_binary_op"),
+    V("scan combine adds into its right operand (out=)", ("C03", "C13", "C10", "C14"), "R-PURE", "aggregations.py", '            array=agg.binary_op(reindexed[..., right.group_idx], right.array),', '            array=agg.binary_op(reindexed[..., right.group_idx], right.array, out=right.array),', must_mention="scan_binary_op"),
     V("in-place NaN substitution", ("C13",), "R-PURE", "aggregate_flox.py", '    result = func(group_idx, np.where(isnull(array), fillna, array), *args, **kwargs)', '    array[isnull(array)] = fillna\n    result = func(group_idx, array, *args, **kwargs)', must_mention="_nan_grouped_op"),
     V("array.sort() in a kernel", ("C13",), "R-PURE", "aggregate_flox.py", '    aux = group_idx\n', '    aux = group_idx\n    array.sort()\n', must_mention="_np_grouped_op"),
     V("var wrapper subtracts in place", ("C13",), "R-PURE", "aggregate_npg.py", '    array = array - first[..., group_idx]', '    array -= first[..., group_idx]', must_mention="_var_std_wrapper"),
@@ -203,6 +203,9 @@ VARIANTS = [
     # ---------------- R-EMPTYKERNEL (C10, C19), R-DTYPENORM (C19)
     V("ffill kernel without the empty-axis guard", ("C10", "C19"), "R-EMPTYKERNEL", "aggregate_flox.py", '    if array.shape[axis] == 0:\n        # nothing to fill (a zero-length chunk)\n        return array\n', '', must_mention="ffill"),
     V("scan entry point stores the raw dtype", ("C19",), "R-DTYPENORM", "core.py", '    if dtype is not None:\n        dtype = np.dtype(dtype)\n    if agg.name in ["cumsum", "nancumsum"]', '    if agg.name in ["cumsum", "nancumsum"]', must_mention="groupby_scan"),
+    # ---------------- R-COUNTWIDTH (C01, C20)
+    V("count kernel sums a uint8 view of the validity mask", ("C01", "C20"), "R-COUNTWIDTH", "aggregate_flox.py", '    return sum(group_idx, (notnull(array)).astype(int), *args, **kwargs)', '    return sum(group_idx, notnull(array).view(np.uint8), *args, **kwargs)', must_mention="nanlen"),
+    V("twin: count kernel widens with np.intp", ("C01", "C20"), "", "aggregate_flox.py", '    return sum(group_idx, (notnull(array)).astype(int), *args, **kwargs)', '    return sum(group_idx, notnull(array).astype(np.intp), *args, **kwargs)', expect="silent"),
     # ---------------- R-LOOPSTORE (C09, C19)
     V("cohort map overwrites a repeated block set", ("C09", "C19"), "R-LOOPSTORE", "core.py", '        merged_cohorts[chunk] = sorted(merged_cohorts.get(chunk, []) + cohort)', '        merged_cohorts[chunk] = cohort', must_mention="merged_cohorts"),
     V("twin: cohort map merges under an explicit membership test", ("C09", "C19", "C02"), "", "core.py", '        merged_cohorts[chunk] = sorted(merged_cohorts.get(chunk, []) + cohort)',
